@@ -63,10 +63,12 @@ pub enum Fault {
     //      adds up)
     SrvHandshakeFlood,
     CliHandshakeFlood,
+    /// two hundred connections to the server's listener that send nothing and stay open while the canary runs
+    SrvStallMany,
 }
 
 impl Fault {
-    pub const ALL: [Fault; 24] = [
+    pub const ALL: [Fault; 25] = [
         Fault::SrvStall,
         Fault::SrvPartialTlsHello,
         Fault::SrvGarbageHold,
@@ -91,6 +93,7 @@ impl Fault {
         Fault::FdStarvedFlowsServer,
         Fault::SrvHandshakeFlood,
         Fault::CliHandshakeFlood,
+        Fault::SrvStallMany,
     ];
     pub fn is_udp(&self) -> bool {
         matches!(self, Fault::UdpJunkToServer | Fault::UdpReplayToServer | Fault::UdpUnresolvableTarget | Fault::UdpMalformedLocal | Fault::UdpJunkToClientOutbound)
@@ -103,7 +106,7 @@ impl Fault {
         let is_ss = matches!(spec.proto, Proto::SsLegacy(_) | Proto::Ss22(_));
         let has_tcp_listener = !(is_ss && spec.transport == Transport::Quic);
         match self {
-            Fault::SrvStall | Fault::SrvPartialTlsHello | Fault::SrvGarbageHold | Fault::SrvGarbageClose | Fault::SrvHalfWsUpgrade | Fault::SrvConnectClose | Fault::FdExhaustionServer | Fault::FdStarvedFlowsServer | Fault::SrvHandshakeFlood => has_tcp_listener,
+            Fault::SrvStall | Fault::SrvPartialTlsHello | Fault::SrvGarbageHold | Fault::SrvGarbageClose | Fault::SrvHalfWsUpgrade | Fault::SrvConnectClose | Fault::FdExhaustionServer | Fault::FdStarvedFlowsServer | Fault::SrvHandshakeFlood | Fault::SrvStallMany => has_tcp_listener,
             Fault::UdpJunkToServer | Fault::UdpReplayToServer => spec.udp && is_ss,
             f if f.is_udp() => spec.udp,
             _ => true,
@@ -156,6 +159,8 @@ struct Env {
     udp_target: Option<UdpTarget>,
     /// application socket that had a successful exchange before the faults (same-session canary)
     udp_app: Option<UdpSocket>,
+    /// applications whose bindings a fault created (kept open until the end of the case)
+    extra_apps: Vec<UdpSocket>,
     notes: Vec<String>,
 }
 
@@ -229,6 +234,16 @@ fn apply(f: Fault, env: &mut Env, k: usize) -> bool {
             }
             None => false,
         },
+        Fault::SrvStallMany => {
+            let before = env.held.len();
+            for _ in 0..200 {
+                if let Some(s) = connect(sp) {
+                    env.held.push(s);
+                }
+            }
+            std::thread::sleep(Duration::from_millis(200));
+            env.held.len() - before >= 150
+        }
         Fault::SrvPartialTlsHello => match connect(sp) {
             Some(mut s) => {
                 let mut hello = vec![0x16, 0x03, 0x01, 0x00, 0xc8, 0x01, 0x00, 0x00, 0xc4, 0x03, 0x03];
@@ -385,6 +400,16 @@ fn apply(f: Fault, env: &mut Env, k: usize) -> bool {
             true
         }
         Fault::UdpJunkToClientOutbound => {
+            // more bindings than the runtime has worker threads: eight further applications send one datagram each
+            if let Some(t) = env.udp_target.as_ref() {
+                let a = Addr::V4([127, 0, 0, 1], t.port);
+                let apps: Vec<UdpSocket> = (0..8).map(|_| net::udp_socket(Duration::from_millis(10))).collect();
+                for (i, app) in apps.iter().enumerate() {
+                    let _ = app.send_to(&net::socks5_udp(&a, format!("binding-{}", i).as_bytes()), SocketAddr::V4(SocketAddrV4::new(Ipv4Addr::LOCALHOST, cp)));
+                }
+                std::thread::sleep(Duration::from_millis(250));
+                env.extra_apps = apps;
+            }
             // the client's per-binding outbound UDP sockets (Shadowsocks only; stream protocols have none)
             let ports: Vec<u16> = procfs::socks_of(env.cl.client.pid).into_iter().filter(|s| s.proto == "udp" && s.local_port != cp).map(|s| s.local_port).collect();
             let s = net::udp_socket(Duration::from_millis(10));
@@ -533,7 +558,7 @@ pub fn exec_once(c: &Case) -> CaseResult {
             return res;
         }
     };
-    let mut env = Env { cl, held: vec![], udp_target: None, udp_app: None, notes: vec![] };
+    let mut env = Env { cl, held: vec![], udp_target: None, udp_app: None, extra_apps: vec![], notes: vec![] };
     let deadline = Duration::from_secs(if rt::failed_already() { 4 } else { 10 });
     // the service works before anything goes wrong (otherwise the case says nothing about faults); a cold case skips
     // this on purpose: the faults are the first thing the fresh processes see
@@ -695,7 +720,7 @@ pub fn run(ctx: &mut PropCtx) {
     ctx.rule = "a sequence is non-trivial when at least one of its faults took effect (the harness observes the fault's own signature: the hostile connection is still open while the canary runs, the descriptor count reached the limit, the replayed datagram's first copy was delivered, ...); distinct by (configuration, fault sequence)".into();
     ctx.assumptions = vec![
         "the service is checked to work before the faults; the canaries after the faults get 10 s for an exchange that takes milliseconds and three paced datagrams each; a failed canary is confirmed on two more fresh clusters".into(),
-        "fault catalogue: stalled / garbage / partial TLS / partial WebSocket / connect-close peers on the server port; stalled / garbage / partial SOCKS5 applications on the client port; unresolvable and refused targets; application and target resets mid-flow; junk, replayed, unresolvable-target and malformed datagrams on server port, client port and the client's outbound sockets; temporary descriptor exhaustion of server and client under RLIMIT_NOFILE=80, also walked through a flow (idle connections take every descriptor, are released one at a time, a whole flow is attempted after each release - on freshly started processes in the exhaustive part); 640 failed handshakes in a row (junk, plain HTTP, connect-and-close) on the server's and on the client's listener".into(),
+        "fault catalogue: stalled / garbage / partial TLS / partial WebSocket / connect-close peers on the server port; stalled / garbage / partial SOCKS5 applications on the client port; unresolvable and refused targets; application and target resets mid-flow; junk, replayed, unresolvable-target and malformed datagrams on server port, client port and the client's outbound sockets; temporary descriptor exhaustion of server and client under RLIMIT_NOFILE=80, also walked through a flow (idle connections take every descriptor, are released one at a time, a whole flow is attempted after each release - on freshly started processes in the exhaustive part); 640 failed handshakes in a row (junk, plain HTTP, connect-and-close) on the server's and on the client's listener; 200 silent connections held open on the server's listener; junk to the outbound sockets of nine client bindings (more bindings than worker threads)".into(),
         "not in the catalogue: black-holed addresses (the sandbox has no route that drops packets)".into(),
     ];
     let cfgs = configs();
